@@ -344,7 +344,7 @@ class LiteralMethod(DeserializationMethod):
                 for cls in self.types:
                     try:
                         return self.value_map[self.coercer(cls, data)]
-                    except IndexError:
+                    except (KeyError, ValidationError):
                         pass
             raise ValidationError(format_error(self.error, data))
         except TypeError:
